@@ -196,6 +196,14 @@ theorem linesRows_cons_ok (O : Oracles) (qy : Query) (q : SelectStmt) (idx : Joi
   | panic s => rw [hb] at h; cases h
   | oracleMissing s => rw [hb] at h; cases h
 
+theorem linesRows_length (O : Oracles) (qy : Query) (q : SelectStmt) (idx : JoinIndex) (ls : List Line)
+    (blocks : List (List (List Value))) (h : linesRows O qy q idx ls = .ok blocks) : blocks.length = ls.length := by
+  induction ls generalizing blocks with
+  | nil => simp only [linesRows, Outcome.ok.injEq] at h; subst h; rfl
+  | cons l ls ih =>
+    obtain ⟨b, bs, _, h2, rfl⟩ := linesRows_cons_ok O qy q idx l ls blocks h
+    simp [ih bs h2]
+
 /-- **the loop in closed form.** Over readable lines with candidate rows `blocks`, started with memory `seen`,
 `k` rows output so far and the limit not yet reached, the loop prints the blocks that DISTINCT keeps, cut to what
 is left of LIMIT, counts the lines up to the one that reaches the limit, changes nothing else in its output and
@@ -289,19 +297,47 @@ theorem runFile_select (O : Oracles) (qy : Query) (q : SelectStmt) (hq : qy.stmt
 
 /-! ### the whole batch run -/
 
+/-- `runBatch` once the join index is available -/
+def batchWithIndex (O : Oracles) (qy : Query) (files : List (List FileLine)) (idx : JoinIndex) : RunOut :=
+  let isAgg := match qy.stmt with
+    | .aggregate _ => true
+    | _ => false
+  let ls := runFiles O qy idx (!isAgg) none files {}
+  if hasFailed ls.out then ls.out
+  else match qy.stmt with
+    | .aggregate q =>
+      match finalResult O q ls.es with
+      | .ok r => { ls.out with printed := ls.out.printed ++ printResult r true }
+      | o => failWith ls.out o
+    | _ => ls.out
+
+theorem runBatch_eq (O : Oracles) (qy : Query) (joined : List FileLine) (files : List (List FileLine)) :
+    runBatch O qy joined files none =
+      match joinIndexOf qy joined with
+      | .ok idx => batchWithIndex O qy files idx
+      | o => failWith {} o := by
+  unfold runBatch joinIndexOf batchWithIndex
+  cases qy.join with
+  | none => rfl
+  | some j =>
+    simp only []
+    cases setupJoin qy.table j (loadJoinFile j joined) <;> rfl
+
 theorem runBatch_select_out (O : Oracles) (qy : Query) (q : SelectStmt) (hq : qy.stmt = .select q)
     (joined : List FileLine) (files : List (List FileLine)) (idx : JoinIndex) (hj : joinIndexOf qy joined = .ok idx) :
     runBatch O qy joined files none = (runFiles O qy idx true none files {}).out := by
-  unfold joinIndexOf at hj
-  unfold runBatch
-  simp only [hq]
-  split
-  · rename_i idx' heq
-    have e : (Outcome.ok idx : Outcome JoinIndex) = .ok idx' := hj.symm.trans heq
-    cases e
-    simp
-  · rename_i hne
-    exact absurd hj (hne idx)
+  rw [runBatch_eq, hj]
+  simp only [batchWithIndex, hq]
+  split <;> rfl
+
+theorem runBatch_join_failed (O : Oracles) (qy : Query) (joined : List FileLine) (files : List (List FileLine))
+    (h : ∀ idx, joinIndexOf qy joined ≠ .ok idx) : hasFailed (runBatch O qy joined files none) = true := by
+  rw [runBatch_eq]
+  cases hj : joinIndexOf qy joined with
+  | ok idx => exact absurd hj (h idx)
+  | error k => simp [failWith, hasFailed]
+  | panic s => simp [failWith, hasFailed]
+  | oracleMissing s => simp [failWith, hasFailed]
 
 /-- **refinement**: whenever the specification decides a batch run of a non-aggregate statement, the model's run
 is the specified one — same records in the same order with the same grouping, same number of lines consumed,
